@@ -84,6 +84,19 @@ func emptyRDB() []byte {
 	return append(b, f[:]...)
 }
 
+// biForceFull makes the next start sequence run a full sync although a position exists: the
+// source answered the partial-resync request with a new snapshot under the same run id.
+var biForceFull bool
+
+// biBootRDB, when non-nil, is the snapshot the NEXT start sequence replays instead of the
+// empty one; biBootCfgHook, when non-nil, may adjust the output configuration of the NEXT
+// start sequence (KeyExists policy, MaxProtoBulkLen ...). Both are consumed (reset) at the
+// entry of that call, so nothing leaks into later executions or other checks.
+var (
+	biBootRDB     []byte
+	biBootCfgHook func(*RedisOutputConfig)
+)
+
 // biBoot runs the start sequence against the target. It returns the output and the
 // offset the incremental replay has to start from.
 type biBootResult struct {
@@ -101,6 +114,8 @@ func biBoot(c biCfg, rc config.RedisConfig, inputName, runID string, s0 int64, p
 
 // biBootWith is biBoot for any topology: nodeOf returns the double that stores a key.
 func biBootWith(c biCfg, rc config.RedisConfig, inputName, runID string, s0 int64, presetName bool, nodeOf func(key string) *redisd.Server) (res biBootResult) {
+	bootRDB, cfgHook := biBootRDB, biBootCfgHook
+	biBootRDB, biBootCfgHook = nil, nil
 	srv := nodeOf(config.CheckpointKeyHashKey)
 	ids := []string{runID, biRunID2}
 	sy := &syncer{cfg: SyncerConfig{Output: rc}, logger: log.WithLogger("[verif] ")}
@@ -136,6 +151,9 @@ func biBootWith(c biCfg, rc config.RedisConfig, inputName, runID string, s0 int6
 	if rc.IsCluster() {
 		ocfg.Parallelism = 2
 	}
+	if cfgHook != nil {
+		cfgHook(&ocfg)
+	}
 	ro := NewRedisOutput(ocfg)
 	res.ro = ro
 	sp, err := ro.StartPoint(context.Background(), ids)
@@ -145,16 +163,19 @@ func biBootWith(c biCfg, rc config.RedisConfig, inputName, runID string, s0 int6
 	}
 	res.sp = sp
 	res.offset = sp.Offset
-	if sp.IsInitial() || sp.Offset < 0 {
+	if sp.IsInitial() || sp.Offset < 0 || biForceFull {
 		// no position: full sync of an (empty) snapshot ending at s0 through the real SendRdb
 		res.fullSync = true
 		g := newGate()
 		rdb := emptyRDB()
+		if bootRDB != nil {
+			rdb = bootRDB
+		}
 		g.Release(rdb)
 		g.Close(nil)
 		rd := newHReader(g, runID, s0, int64(len(rdb)), false)
 		if err = ro.Send(context.Background(), rd); err != nil {
-			res.err = fmt.Errorf("full sync of empty snapshot: %w", err)
+			res.err = fmt.Errorf("full sync of snapshot (%d bytes): %w", len(rdb), err)
 			return
 		}
 		res.offset = s0
